@@ -1533,7 +1533,10 @@ def external_attr_groups(eng, attr):
     ct = eng.ct
     if attr in ("start", "stop", "step"):
         out.append((lambda t: eng.isinstance_expr(t, [ct.ext["slice"]]), lambda base: eng.read_field(base, attr)))
-    meth_classes = [c for c in ct.ext.values() if attr in c.attrs and c.name not in ("object",)]
+    meth_classes = [c for c in ct.ext.values() if attr in c.attrs and attr not in getattr(c, "data", ()) and c.name not in ("object",)]
+    data_classes = [c for c in ct.ext.values() if attr in getattr(c, "data", ())]
+    if data_classes:
+        out.append((lambda t, dc=data_classes: eng.isinstance_expr(t, dc), lambda base: eng.read_field(base, attr)))
     if meth_classes and attr not in ("start", "stop", "step", "__class__"):
         out.append((lambda t, mc=meth_classes: eng.isinstance_expr(t, mc), lambda base: BoundMethod(base, attr)))
     return out
